@@ -76,9 +76,14 @@ def c01_family(name, replay="C01", inv=C01_INV, **kw):
     return tlc_replay("MC_C01_" + name, "MC_C01", replay, dict(constants=gen_consts(**kw), invariants=inv))
 
 
+def ops_family(name, replay, tables="OT_OpsThunks"):
+    return tlc_replay("MC_Ops_" + name, "MC_Ops", replay, dict(constants={"Tables": "<- " + tables}, invariants=["Emit"]))
+
+
 def c01_stages(tier, seed):
     if tier == "quick":
         return [
+            ops_family("c01", "C01"),
             c01_family("F1_q", fam="F1", leafs="F1_Leafs", maxsel=3, maxnodes=3),
             c01_family("F2_q", fam="F2", leafs="F2_Leafs", comps="F2_Comps", maxsel=2, maxnodes=5, maxdepth=2, dirs="DirsOne"),
             c01_family("F3_q", fam="F3", frags="FragsF", leafs="F3_Leafs", inlines="F3_Inlines", spread="SpreadLater",
@@ -88,6 +93,7 @@ def c01_stages(tier, seed):
             c01_family("F5_q", fam="F5", leafs="F5_Leafs", maxsel=2, maxnodes=2, dirs="DirsNone"),
         ]
     return [
+        ops_family("c01", "C01"),
         c01_family("F1_t", fam="F1", leafs="F1_Leafs", maxsel=4, maxnodes=4),
         c01_family("F2_t", fam="F2", leafs="F2_Leafs", comps="F2_Comps", maxsel=3, maxnodes=6, maxdepth=3, dirs="DirsDyn"),
         c01_family("F3_t", fam="F3", frags="FragsFG", leafs="F3_Leafs", inlines="F3_Inlines", spread="SpreadLater",
@@ -110,7 +116,7 @@ def c04_stages(tier, seed):
     return [c04_stage("small3", "{1,2,3,4,5,6}", 3, "small"), c04_stage("full2", "{1,2,3,4,5,6}", 2, "full")]
 
 
-ALL_ARGS = '{"i","ni","fl","st","bo","id","e","ne","cu","li","lni","nli","lli","le","in","nin","lin","in2"}'
+ALL_ARGS = '{"i","ni","fl","st","bo","id","e","ne","cu","li","lni","nli","lli","le","in","nin","lin","in2","in3"}'
 
 
 def c05_stages(tier, seed):
@@ -137,6 +143,9 @@ def c13_stages(tier, seed):
         tlc_check("Spec_ExecSteps_asis", "ExecSteps",
                   dict(spec="SpecDeferAll", constants={"N": 3}, invariants=["Serial"]), expect_violation="Serial"),
         fam,
+        dict(ops_family("c13", "C13"), trace_out="c13ops.ndjson", replay_args=["--reps", "3"]),
+        dict(kind="trace_validate", cfg="Trace_C13_ops", module="Trace_C13", trace_file="c13ops.ndjson",
+             cfgdict=dict(spec="TraceSpec", constants={"N": 1}, invariants=["TraceInv"], postcondition="TraceAccepted")),
         dict(kind="trace_validate", cfg="Trace_C13", module="Trace_C13", trace_file="c13.ndjson",
              cfgdict=dict(spec="TraceSpec", constants={"N": 1}, invariants=["TraceInv"], postcondition="TraceAccepted")),
     ]
